@@ -246,10 +246,22 @@ func (s *Sorts) Zero(t types.Type) string {
 		}
 		return "(" + si.Ctor + " " + strings.Join(fs, " ") + ")"
 	case *types.Array:
-		return fmt.Sprintf("((as const %s) %s)", s.SortOf(t), s.Zero(u.Elem()))
+		return s.ConstArray("Int", s.SortOf(u.Elem()), s.Zero(u.Elem()))
 	}
 	s.SortOf(t)
 	return q("zero." + shortType(t))
+}
+
+// ConstArray returns an array term mapping every index to zero.
+func (s *Sorts) ConstArray(idxSort, elemSort, zero string) string {
+	switch zero {
+	case "0", "false", "true":
+		return fmt.Sprintf("((as const (Array %s %s)) %s)", idxSort, elemSort, zero)
+	}
+	name := q("zeroarr." + idxSort + "." + elemSort)
+	s.declareOnce(fmt.Sprintf("(declare-const %s (Array %s %s))", name, idxSort, elemSort))
+	s.declareOnce(fmt.Sprintf("(assert (forall ((i!z %s)) (! (= (select %s i!z) %s) :pattern ((select %s i!z)))))", idxSort, name, zero, name))
+	return name
 }
 
 func (s *Sorts) declareOnce(cmd string) {
